@@ -249,6 +249,11 @@ pub fn analyze_s<M: Mask>(info: &Info<M>, cfg: &RunCfg, res: &RunRes, out: &mut 
                 // signal as it returns) cut one round of polling short, which can leave one function
                 // dequeued but not yet started
                 mid_allowance = ends_in_poll + matches!(res.ev.get(k + 1), Some(Ev::End(_))) as usize;
+                // diagnosis only: the strictly literal reading (no allowance)
+                static LITERAL: std::sync::OnceLock<bool> = std::sync::OnceLock::new();
+                if *LITERAL.get_or_init(|| std::env::var("FGV_LITERAL_MID").is_ok()) {
+                    mid_allowance = 0;
+                }
                 let mut m = M::zero(n);
                 for i in 0..n {
                     if !started.get(i) && !info.built_direct(i, rev).and_not(&ended).any() {
